@@ -301,7 +301,10 @@ def run_families(c: checklib.Check, prop, families, *, bound, random_n=0, dfs_jo
                 if rec["outcome"] in ("error", "divergence"):
                     c.machinery_failure(f"program failed in the harness: {rec['error']} {pat}")
             else:
-                n, recs = explore.dfs(SCEN, pat, bnd, jobs=dfs_jobs or c.jobs, split_depth=5)
+                info = {}
+                n, recs = explore.dfs(SCEN, pat, bnd, jobs=dfs_jobs or c.jobs, split_depth=5, cap=120000 if c.thorough else None, info=info)
+                if info.get("capped"):
+                    c.cov["capped_programs"] = c.cov.get("capped_programs", 0) + 1
             n_f += n
             d_f += len(recs)
             for rec in recs:
